@@ -320,8 +320,12 @@ def load_known():
 
 def _pure_once(ctx, suites, seed, n, tag):
     cases = os.path.join(ctx.work, "cases-%s.txt" % tag)
-    rc, out = sh([os.path.join(BUILD, "purediff"), "-seed", str(seed), "-n", str(n), "-out", cases,
-                  "-suites", ",".join(suites)], timeout=1200)
+    if suites == ["subjects"]:
+        # the subject-construction cases come from the real gateway (gwrun), not from a pure routine
+        rc, out = sh([os.path.join(BUILD, "gwrun"), "-subjects", cases, "-seed", str(seed), "-n", str(n)], timeout=1200)
+    else:
+        rc, out = sh([os.path.join(BUILD, "purediff"), "-seed", str(seed), "-n", str(n), "-out", cases,
+                      "-suites", ",".join(suites)], timeout=1200)
     if rc != 0:
         return {"crash": out}
     gen = dict((l.split("\t")[1], int(l.split("\t")[2])) for l in out.splitlines() if l.startswith("GEN\t"))
